@@ -235,7 +235,11 @@ func rangeLimitIterator(i Iterator, r *Range, l *Limit, reverse bool) *RangeLimi
 			if !it.Iterator.Valid() {
 				it.Iterator.SeekToFirst()
 				if it.Iterator.Valid() && bytes.Compare(it.Iterator.RefKey(), r.Max) == 1 {
-					dbLog.Infof("iterator seek to last key %v should not great than seek to max %v", it.Iterator.RefKey(), r.Max)
+					// no key is <= Max, so the range is empty. An engine iterator that does not
+					// enforce the upper bound itself (mem) is now on the smallest key of the
+					// store, which Valid() would accept since it only checks Min when reversed:
+					// step in front of it so that the iterator is invalid.
+					it.Iterator.Prev()
 				}
 			}
 			if r.Type&common.RangeROpen > 0 {
